@@ -357,6 +357,110 @@ func init() {
 					c.Sample(d)
 				}
 			}},
+			{Name: "colliding-and-duplicate-names", Count: n(20000, 500000), Run: func(c *core.Ctx, idx int) {
+				// member names that are different texts but the same name once decoded (two lone surrogate escapes both
+				// become U+FFFD; "a" and "\u0061"), or plain duplicates, at the start, middle and end of objects.  What
+				// value such a document has is not stated anywhere, so only the form of a successful result is checked:
+				// one well-formed text, ApplyIndent agreeing with it, nothing raw under EscapeHTML.
+				groups := [][]string{{`"\ud800"`, `"\udc00"`, `"\ufffd"`}, {`"a"`, `"\u0061"`, `"a"`}, {`"<"`, `"\u003c"`}, {`""`, `""`}, {`"a/b"`, `"a\/b"`}}
+				g := groups[c.R.Intn(len(groups))]
+				dec := mustParse(g[0]).S
+				vals := []string{`1`, `"a<b"`, `null`, `{"k":[1,2]}`, `[{"x":"\u2028"}]`, `true`}
+				var ms []string
+				for i, k := 0, 2+c.R.Intn(2); i < k; i++ {
+					ms = append(ms, g[c.R.Intn(len(g))]+":"+vals[c.R.Intn(len(vals))])
+				}
+				for k := c.R.Intn(3); k > 0; k-- {
+					m := []string{`"note"`, `"z"`, `"m&m"`}[c.R.Intn(3)] + ":" + vals[c.R.Intn(len(vals))]
+					at := c.R.Intn(len(ms) + 1)
+					ms = append(ms[:at], append([]string{m}, ms[at:]...)...)
+				}
+				obj := "{" + strings.Join(ms, ",") + "}"
+				docT, pre := obj, ""
+				switch c.R.Intn(3) {
+				case 1:
+					docT, pre = `{"o":`+obj+`,"tail":[1]}`, "/o"
+				case 2:
+					docT, pre = `[0,`+obj+`]`, "/1"
+				}
+				tok := pre + "/" + jr.EncTok(dec)
+				var ops []string
+				for k := 1 + c.R.Intn(2); k > 0; k-- {
+					switch c.R.Intn(6) {
+					case 0:
+						ops = append(ops, OpText("remove", tok, "", "", false))
+					case 1:
+						ops = append(ops, OpText("move", "/moved", tok, "", false))
+					case 2:
+						ops = append(ops, OpText("copy", "/copied", tok, "", false))
+					case 3:
+						ops = append(ops, OpText("replace", tok, "", `"r>"`, true))
+					case 4:
+						ops = append(ops, OpText("add", tok, "", `[1,"&"]`, true))
+					default:
+						ops = append(ops, OpText("remove", pre+"/"+[]string{"note", "z", "m&m"}[c.R.Intn(3)], "", "", false))
+					}
+				}
+				if docT[0] == '[' {
+					for i, o := range ops {
+						ops[i] = strings.Replace(strings.Replace(o, `"/moved"`, `"/0"`, 1), `"/copied"`, `"/-"`, 1)
+					}
+				}
+				patch := "[" + strings.Join(ops, ",") + "]"
+				o := V5Opts{NegIdx: true, EscapeHTML: c.R.Intn(2) == 0}
+				res := ApplyV5(docT, patch, o, "")
+				c.Eval(1)
+				d := map[string]any{"doc": docT, "patch": patch, "options": o.String(), "library_output": clip(string(res.Out), 2000), "library_error": errText(res.Err)}
+				if res.Panic != nil {
+					d["panic"] = panicDetail(res.Panic)
+					c.Violation(res.Panic.Sig(), d)
+					return
+				}
+				if res.Err != nil || res.DecodeErr != nil {
+					c.Count("colliding:apply-failed")
+					return
+				}
+				if _, ok := wellFormed(c, "Apply", res.Out, d); !ok {
+					return
+				}
+				if o.EscapeHTML {
+					if raw := rawHTML(res.Out); raw != "" {
+						d["raw_character"] = raw
+						c.Violation("escape-on:raw-html-character-in-output", d)
+						return
+					}
+				}
+				ind := indents[c.R.Intn(len(indents))]
+				ri := ApplyV5(docT, patch, o, ind)
+				c.Eval(1)
+				if ri.Panic != nil || ri.Err != nil {
+					d["indent_error"] = errText(ri.Err)
+					c.Violation("ApplyIndent-fails-where-Apply-succeeds", d)
+					return
+				}
+				if wantI := refenc.Indent(string(res.Out), ind); string(ri.Out) != wantI {
+					d["indent"], d["indented_output"], d["reference_indentation"] = ind, clip(string(ri.Out), 2000), clip(wantI, 2000)
+					c.Violation("ApplyIndent-differs-from-reindented-Apply", d)
+					return
+				}
+				c.Count("colliding:wellformed")
+				c.Nontrivial("colliding", docT, patch, o.String())
+				// the merge entry points on the same document
+				mp := `{` + g[c.R.Intn(len(g))] + `:null,"n<":1}`
+				if docT[0] == '{' {
+					out, err, pn := callMerge(jp.MergePatch, docT, mp)
+					c.Eval(1)
+					dm := map[string]any{"api": "MergePatch", "a": docT, "b": mp, "output": clip(string(out), 1500), "error": errText(err)}
+					if pn != nil {
+						dm["panic"] = panicDetail(pn)
+						c.Violation("MergePatch:"+pn.Sig(), dm)
+						return
+					}
+					if err == nil {
+						wellFormed(c, "MergePatch", out, dm)
+					}
+				}
+			}},
 			{Name: "merge-family-outputs", Count: n(40000, 800000), Run: func(c *core.Ctx, idx int) {
 				prof := hostile.With(func(p *gen.Profile) {
 					p.Keys = append(append([]string{}, gen.MergeKeys...), "\xe2\x80\xa9", "<>&", "\x01", "é")
